@@ -133,7 +133,7 @@ def run(tier, seed):
 
     # ---- G: every sequential sequence
     cfg = "MC_Alloc_gen5" if thorough else "MC_Alloc_gen"
-    r = vlib.tlc("MC_Alloc", cfg, workers=8, timeout=3000, coverage=True, tag="c19g", xmx="12g")
+    r = vlib.tlc("MC_Alloc", cfg, workers=1, timeout=3000, coverage=True, tag="c19g", xmx="12g")  # 1 worker: printed lines must not interleave
     vlib.require_ok(r, cfg)
     run.add_tlc(r, cfg)
     never = [a for a, (d, t) in r.coverage.items() if t == 0 and a not in ("AParentFail", "RParentFail")]
